@@ -183,17 +183,66 @@ func parseModel(out string) map[string]string {
 	return m
 }
 
+// solveBatch: many small ground obligations of one context in a single incremental solver run
+func solveBatch(c *Ctx, obls []*Obligation, budget int) {
+	c.computeDeps()
+	var b strings.Builder
+	b.WriteString(c.header())
+	for _, d := range c.decls {
+		b.WriteString(d.text + "\n")
+	}
+	for _, o := range obls {
+		fmt.Fprintf(&b, "(push 1)\n(assert %s)\n(assert (not %s))\n(check-sat)\n(pop 1)\n", o.Guard, o.Goal)
+	}
+	file := oblFile(obls[0].Func + "#batch")
+	os.MkdirAll(filepath.Dir(file), 0o755)
+	os.WriteFile(file, []byte(b.String()), 0o644)
+	t0 := time.Now()
+	cmd := exec.Command("z3-new", fmt.Sprintf("-T:%d", budget*3), file)
+	var buf bytes.Buffer
+	cmd.Stdout, cmd.Stderr = &buf, &buf
+	cmd.Run()
+	lines := strings.Split(strings.TrimSpace(buf.String()), "\n")
+	per := time.Since(t0).Seconds() / float64(len(obls))
+	for i, o := range obls {
+		o.File, o.Solver, o.TimeS = file, "z3-new", per
+		ans := ""
+		if i < len(lines) {
+			ans = strings.TrimSpace(lines[i])
+		}
+		switch ans {
+		case "unsat":
+			o.Result = "proved"
+		case "sat":
+			o.Result = "refuted"
+			o.RawOut = "sat (cell " + o.Name + " does not satisfy " + o.Pos + ")"
+		default:
+			// fall back to the ordinary portfolio for this one
+			solveObligation(c, o, budget)
+		}
+	}
+}
+
 func solveAll(results []*FuncResult, budget int, workers int, filter func(o *Obligation) bool) {
 	type job struct {
-		c *Ctx
-		o *Obligation
+		c     *Ctx
+		o     *Obligation
+		batch []*Obligation
 	}
 	var jobs []job
 	for _, r := range results {
+		var batch []*Obligation
 		for _, o := range r.Obls {
 			if filter == nil || filter(o) {
-				jobs = append(jobs, job{r.Ctx, o})
+				if o.Kind == "table" && !strings.Contains(o.Name, "@") {
+					batch = append(batch, o)
+				} else {
+					jobs = append(jobs, job{c: r.Ctx, o: o})
+				}
 			}
+		}
+		if len(batch) > 0 {
+			jobs = append(jobs, job{c: r.Ctx, batch: batch})
 		}
 	}
 	var wg sync.WaitGroup
@@ -203,7 +252,11 @@ func solveAll(results []*FuncResult, budget int, workers int, filter func(o *Obl
 		go func() {
 			defer wg.Done()
 			for j := range ch {
-				solveObligation(j.c, j.o, budget)
+				if j.batch != nil {
+					solveBatch(j.c, j.batch, budget)
+				} else {
+					solveObligation(j.c, j.o, budget)
+				}
 			}
 		}()
 	}
